@@ -931,3 +931,15 @@ func parkedSummary(dump string) string {
 	}
 	return strings.Join(parts, "; ")
 }
+
+// stallVerdict is consulted after a measured stall (no progress for 10 s) and before a kick proof.
+// A lost wake-up leaves no worker goroutine behind, so the process is at rest; if it is not, it is
+// merely slow and gets the rest of the watchdog to finish. Returns whether done() came true after
+// all, whether the process is at rest, and where its goroutines are parked.
+func stallVerdict(wd time.Duration, done func() bool) (finished, rest bool, where string) {
+	rest, where = atRest(2 * time.Second)
+	if rest {
+		return done(), true, where
+	}
+	return waitFor(wd, done), false, where
+}
